@@ -272,6 +272,20 @@ func runC07(t *testing.T, spec *hutil.Spec, out *hutil.Out) {
 			}
 			out.Progress(f.Name())
 			r := &c07run{file: f, conf: map[string]any{"type": formatType[format], "file": "/ammo", "passes": 3}}
+			if format == "uri" && !f.Layout.Blank && !f.Layout.Surround && fi%3 == 0 {
+				// the same entries given inline through the 'uris' option instead of a file
+				var lines []any
+				for _, ln := range strings.Split(strings.TrimSuffix(string(render(f.Format, f.Items, f.Layout)), "\n"), "\n") {
+					lines = append(lines, ln)
+				}
+				r2 := &c07run{file: f, conf: map[string]any{"type": "uri", "uris": lines, "passes": 3}}
+				v2, _ := rn.explore(0, r2.scenario)
+				out.Cells++
+				out.Extra["uris_option_cells"]++
+				if v2 != nil && !rn.e.HarnessErr {
+					out.Violate("C07|uri|"+classify(v2.Err)+"|uris-option", f.Name()+" (inline uris)\n"+v2.Err.Error(), map[string]any{"mode": "C07", "file": f})
+				}
+			}
 			v, complete := rn.explore(0, r.scenario)
 			out.Cells++
 			if rn.e.HarnessErr {
